@@ -77,6 +77,12 @@ func (presentationDefinition PresentationDefinition) Match(vcs []vc.VerifiableCr
 	var selectedVCs []vc.VerifiableCredential
 	var descriptorMaps []InputDescriptorMappingObject
 	var err error
+	for _, inputDescriptor := range presentationDefinition.InputDescriptors {
+		// Presentation Definitions may come from a remote party and are not always schema-validated: "input_descriptors": [null]
+		if inputDescriptor == nil {
+			return nil, nil, errors.New("presentation definition contains an empty input descriptor")
+		}
+	}
 	if len(presentationDefinition.SubmissionRequirements) > 0 {
 		if descriptorMaps, selectedVCs, err = presentationDefinition.matchSubmissionRequirements(vcs); err != nil {
 			return nil, nil, err
@@ -98,7 +104,7 @@ func (presentationDefinition PresentationDefinition) ResolveConstraintsFields(cr
 		// Find the input descriptor
 		var inputDescriptor InputDescriptor
 		for _, curr := range presentationDefinition.InputDescriptors {
-			if curr.Id == inputDescriptorID {
+			if curr != nil && curr.Id == inputDescriptorID {
 				inputDescriptor = *curr
 				break
 			}
